@@ -227,7 +227,8 @@ fn fabricate(tx: &Transaction) -> Option<(String, Vec<(u64, ValueBlindingFactor,
     Some((ins, outs))
 }
 fn eval_opened(case: &str) -> Out {
-    let (tx0, spent0) = match doc_vector() { Some(x) => x, None => return Out::ok("harnesserr vector".into()) };
+    let built = if field(case, "vec") == Some("doc") { doc_vector() } else { mixed_from_case(case) };
+    let (tx0, spent0) = match built { Some(x) => x, None => return Out::ok("harnesserr vector".into()) };
     let ts = match field(case, "tamper") { Some(t) => t, None => return Out::ok("harnesserr tamper".into()) };
     let t = match parse_tamper(ts) { Some(t) => t, None => return Out::ok("harnesserr tamper".into()) };
     let base = verify_verdict(&tx0, &spent0);
@@ -235,10 +236,133 @@ fn eval_opened(case: &str) -> Out {
     let (app, chg) = match apply_tamper(&t, &mut tx, &mut spent) { Some(x) => x, None => return Out::ok("harnesserr cannot corrupt".into()) };
     let tampered = verify_verdict(&tx, &spent);
     let pred_fail = if base == "ok" && app && chg && tampered == "ok" {
-        Some(format!("tampered-tx-verifies|verify_tx_amt_proofs accepts the real-network vector after tamper {} ({})", ts, class_of(&t)))
+        Some(format!("tampered-tx-verifies|verify_tx_amt_proofs accepts the transaction after tamper {} ({})", ts, class_of(&t)))
     } else { None };
     Out { result: format!("app={} chg={} base={} tampered={}", app as u8, chg as u8, base, tampered), pred_fail }
 }
+// ------------------------------------------------------------------------------------------------ partially blinded outputs
+/// an output in opened form; kind: c = confidential asset and value, e = explicit, v = EXPLICIT asset + CONFIDENTIAL value,
+/// a = CONFIDENTIAL asset + EXPLICIT amount
+#[derive(Clone, Debug)]
+pub struct BOut { pub sec: elements::TxOutSecrets, pub script: Vec<u8>, pub kind: char }
+fn fmt_bout(b: &BOut) -> String {
+    format!("{}:{}:{}:{}:{}:{}", tag_hex(&b.sec.asset), b.sec.value, abf_hex(&b.sec.asset_bf), vbf_hex(&b.sec.value_bf), if b.script.is_empty() { "-".to_string() } else { hex(&b.script) }, b.kind)
+}
+fn parse_bouts(s: &str) -> Option<Vec<BOut>> {
+    s.split(';').map(|x| {
+        let p: Vec<&str> = x.split(':').collect();
+        if p.len() != 6 || p[5].len() != 1 { return None; }
+        Some(BOut { sec: elements::TxOutSecrets::new(asset_from_hex(p[0])?, AssetBlindingFactor::from_slice(&unhex(p[2])?).ok()?, p[1].parse().ok()?, ValueBlindingFactor::from_slice(&unhex(p[3])?).ok()?),
+                    script: if p[4] == "-" { vec![] } else { unhex(p[4])? }, kind: p[5].chars().next()? })
+    }).collect()
+}
+/// builds the transaction with the real library directly from the opened form (no Transaction::blind): every combination
+/// explicit/confidential of (asset, value)
+pub fn build_mixed(ins: &[InSpec], bouts: &[BOut], seed: [u8; 32]) -> Option<(Transaction, Vec<TxOut>)> {
+    use elements::secp256k1_zkp::{Generator, SecretKey};
+    use rand::SeedableRng;
+    let (mut tx, spent, secrets) = build(&TxSpec { ins: ins.to_vec(), outs: vec![] });
+    let mut rng = ChaCha20Rng::from_seed(seed);
+    let key = SecretKey::from_slice(&[7u8; 32]).ok()?;
+    let pk = elements::secp256k1_zkp::PublicKey::from_secret_key(secp(), &key);
+    for b in bouts {
+        let spk = Script::from(b.script.clone());
+        let o = match b.kind {
+            'c' => TxOut::with_txout_secrets(&mut rng, secp(), spk, pk, key, b.sec, &secrets).ok()?,
+            'v' => {
+                let gen = Generator::new_unblinded(secp(), b.sec.asset.into_tag());
+                let value = Value::new_confidential(secp(), b.sec.value, gen, b.sec.value_bf);
+                let msg = elements::RangeProofMessage::new(b.sec.asset, AssetBlindingFactor::zero()).to_byte_array();
+                let rp = RangeProof::new(secp(), TxOut::RANGEPROOF_MIN_VALUE, value.commitment()?, b.sec.value, b.sec.value_bf.into_inner(), &msg, spk.as_bytes(), key,
+                                         TxOut::RANGEPROOF_EXP_SHIFT, TxOut::RANGEPROOF_MIN_PRIV_BITS, gen).ok()?;
+                TxOut { asset: Asset::Explicit(b.sec.asset), value, nonce: elements::confidential::Nonce::Null, script_pubkey: spk,
+                        witness: elements::TxOutWitness { surjection_proof: None, rangeproof: Some(Box::new(rp)) } }
+            }
+            'a' => {
+                let (asset, sp) = Asset::Explicit(b.sec.asset).blind(&mut rng, secp(), b.sec.asset_bf, &secrets).ok()?;
+                TxOut { asset, value: Value::Explicit(b.sec.value), nonce: elements::confidential::Nonce::Null, script_pubkey: spk,
+                        witness: elements::TxOutWitness { surjection_proof: Some(Box::new(sp)), rangeproof: None } }
+            }
+            _ => TxOut { asset: Asset::Explicit(b.sec.asset), value: Value::Explicit(b.sec.value), nonce: elements::confidential::Nonce::Null, script_pubkey: spk, witness: elements::TxOutWitness::default() },
+        };
+        tx.output.push(o);
+    }
+    Some((tx, spent))
+}
+fn mixed_from_case(case: &str) -> Option<(Transaction, Vec<TxOut>)> {
+    let ins = parse_spec(&format!("in={} out=-", field(case, "in")?))?.ins;
+    let bouts = parse_bouts(field(case, "bout")?)?;
+    build_mixed(&ins, &bouts, parse_seed(case)?)
+}
+/// balanced transactions whose outputs mix all four forms, every tamper class at every applicable position
+fn mixed_cases(rng: &mut ChaCha20Rng, n: usize, thorough: bool) -> Vec<Case> {
+    let mut out = vec![];
+    let mut k = 0;
+    while out.len() < n && k < 4 * n + 8 {
+        let sh = Shape { nin: 1 + k % 3, nassets: 1 + (k / 2) % 2, extra_outs: 2 + k % 3, iss: [0, 1, 0, 3][k % 4], fee: k % 3 != 2 };
+        k += 1;
+        let mut tg = vec![];
+        let base = gen_balanced(rng, &sh, &mut tg);
+        let (_, _, secrets) = build(&TxSpec { ins: base.ins.clone(), outs: vec![] });
+        // kinds: rotate so that every form occurs, the fee stays explicit
+        let kinds = ['v', 'a', 'c', 'e', 'v', 'c', 'a'];
+        let mut bouts: Vec<BOut> = base.outs.iter().enumerate().map(|(j, o)| {
+            let kind = if o.script.is_empty() || o.value > i64::MAX as u64 { 'e' } else { kinds[(j + k) % kinds.len()] };
+            let abf = if kind == 'c' || kind == 'a' { rabf(rng) } else { AssetBlindingFactor::zero() };
+            let vbf = if kind == 'c' || kind == 'v' { rvbf(rng) } else { ValueBlindingFactor::zero() };
+            BOut { sec: elements::TxOutSecrets::new(o.asset, abf, o.value, vbf), script: o.script.clone(), kind }
+        }).collect();
+        // the last output with a confidential value balances the blinding factors
+        let Some(last) = bouts.iter().rposition(|b| b.kind == 'c' || b.kind == 'v') else { continue };
+        let inp: Vec<(u64, AssetBlindingFactor, ValueBlindingFactor)> = secrets.iter().map(|s| (s.value, s.asset_bf, s.value_bf)).collect();
+        let others: Vec<(u64, AssetBlindingFactor, ValueBlindingFactor)> = bouts.iter().enumerate().filter(|(j, _)| *j != last).map(|(_, b)| (b.sec.value, b.sec.asset_bf, b.sec.value_bf)).collect();
+        let lv = ValueBlindingFactor::last(secp(), bouts[last].sec.value, bouts[last].sec.asset_bf, &inp, &others);
+        bouts[last].sec = elements::TxOutSecrets::new(bouts[last].sec.asset, bouts[last].sec.asset_bf, bouts[last].sec.value, lv);
+        let seed = r32(rng);
+        let ins_text = base.ins.iter().enumerate().map(|(i, s)| fmt_in(i, s)).collect::<Vec<_>>().join(";");
+        let bout_text = bouts.iter().map(fmt_bout).collect::<Vec<_>>().join(";");
+        // tampers
+        let n_out = bouts.len();
+        let other_asset = |rng: &mut ChaCha20Rng, a: &AssetId| -> AssetId { bouts.iter().map(|b| b.sec.asset).find(|x| x != a).filter(|_| rng.gen_bool(0.6)).unwrap_or_else(|| rasset_id(rng)) };
+        let mut ts: Vec<String> = vec![];
+        for (j, b) in bouts.iter().enumerate() {
+            let conf_v = b.kind == 'c' || b.kind == 'v';
+            let conf_a = b.kind == 'c' || b.kind == 'a';
+            if conf_v {
+                ts.push(format!("oval:{}:{}", j, vdesc(b.sec.value + 1, &b.sec.value_bf, &b.sec.asset, &b.sec.asset_bf)));
+                ts.push(format!("oval:{}:{}", j, vdesc(b.sec.value, &rvbf(rng), &b.sec.asset, &b.sec.asset_bf)));
+                for t in ["rmrp", "corrp"] { ts.push(format!("{}:{}", t, j)); }
+                ts.push(format!("script:{}:{}", j, hex(&raddr_script(rng))));
+            } else { ts.push(format!("oval:{}:E{}", j, b.sec.value + 1 + rng.gen_range(0..50))); }
+            if conf_a {
+                ts.push(format!("oasset:{}:{}", j, adesc(&b.sec.asset, &rabf(rng))));
+                ts.push(format!("oasset:{}:{}", j, adesc(&other_asset(rng, &b.sec.asset), &b.sec.asset_bf)));
+                for t in ["rmsp", "corsp"] { ts.push(format!("{}:{}", t, j)); }
+            } else { ts.push(format!("oasset:{}:E{}", j, tag_hex(&other_asset(rng, &b.sec.asset)))); }
+            for (l, c) in bouts.iter().enumerate().skip(j + 1) {
+                let (cv2, ca2) = (c.kind == 'c' || c.kind == 'v', c.kind == 'c' || c.kind == 'a');
+                if conf_v && cv2 { ts.push(format!("swapval:{}:{}", j, l)); if conf_a == ca2 { ts.push(format!("swaprp:{}:{}", j, l)); } }
+                if conf_a && ca2 { ts.push(format!("swapasset:{}:{}", j, l)); ts.push(format!("swapsp:{}:{}", j, l)); }
+            }
+        }
+        let _ = n_out;
+        if !thorough {
+            // everything on the partially blinded outputs, one in three of the rest
+            let keep = |t: &str| -> bool { let j: usize = t.split(':').nth(1).and_then(|x| x.parse().ok()).unwrap_or(0); matches!(bouts[j].kind, 'v' | 'a') };
+            let mut c = 0; ts.retain(|t| { c += 1; keep(t) || c % 3 == 0 });
+        }
+        for t in ts {
+            if out.len() >= n { break; }
+            let Some(tp) = parse_tamper(&t) else { continue };
+            let j: usize = t.split(':').nth(1).and_then(|x| x.parse().ok()).unwrap_or(0);
+            let form = match bouts[j].kind { 'c' => "conf-asset-conf-value", 'v' => "explicit-asset-conf-value", 'a' => "conf-asset-explicit-value", _ => "explicit-asset-explicit-value" };
+            out.push(Case { text: format!("C05 opened in={} bout={} seed={} tamper={}", ins_text, bout_text, hex(&seed), t),
+                            tags: vec![format!("tamper-{}", class_of(&tp)), format!("at-{}", form), "mixed-outputs".into()], nontrivial: true });
+        }
+    }
+    out
+}
+
 /// every tamper class at every applicable position of the vector
 fn vector_cases(rng: &mut ChaCha20Rng) -> Vec<Case> {
     let mut out = vec![];
@@ -332,7 +456,9 @@ pub fn all_tampers(rng: &mut ChaCha20Rng, spec: &TxSpec, b: &Blinded) -> Vec<Str
 pub fn gen(rng: &mut ChaCha20Rng, n: usize, thorough: bool) -> Vec<Case> {
     let mut out = Vec::new();
     // (0) the repository's real-network vector (doc example of verify_tx_amt_proofs), every class at every position
-    let vc = vector_cases(rng);
+    let mut vc = vector_cases(rng);
+    // (0b) transactions built directly with every combination explicit/confidential of (asset, value) per output
+    vc.extend(mixed_cases(rng, if thorough { n / 4 } else { (n / 3).max(60) }, thorough));
     let n_vec = vc.len();
     out.extend(vc);
     // (1) tampers of blinded transactions: every class at every applicable position (thorough) or a sample of them per transaction (quick)
